@@ -83,6 +83,19 @@ def expiry(ctx: Any) -> List[Ob]:
     return purge_report_obligations(ctx, 'C04.EXPIRY')
 
 
+@rule('C04.IDENTITY', 'D', expect_min=5)
+def identity(ctx: Any) -> List[Ob]:
+    """Added / Removed alternate per (type, instance) only if every copy of a pointer record finds its cached copy: equality
+    and hash of DNSPointer (and of the entry fields it inherits) agree field by field, with the owner and the target
+    lower-cased and the cache-flush bit masked out of the class.  The C20.CONGRUENCE obligations restricted to pointers."""
+    from .c20 import congruence
+
+    out = [o for o in congruence.fn(ctx) if 'DNSPointer' in str(o.function) or 'DNSEntry' in str(o.function) or 'DNSRecord.' in str(o.function)]
+    for o in out:
+        o.rule = 'C04.IDENTITY'
+    return out
+
+
 @rule('C04.PRECEDENCE', 'D', expect_min=12)
 def precedence(ctx: Any) -> List[Ob]:
     """Decision table of the pending-event merge over (new event) x (pending
@@ -243,4 +256,4 @@ EXPLANATION_ADDENDUM = (
 )
 EXPLANATION = EXPLANATION + EXPLANATION_ADDENDUM
 
-RULES = [aftercache, previous, expiry, precedence, classify, flush]
+RULES = [aftercache, previous, expiry, identity, precedence, classify, flush]
